@@ -17,12 +17,13 @@
 #include "vf_common.h"
 #include "a/math.h"
 #include <sys/mman.h>
+#include <unistd.h>
 
 static size_t const strides[] = {(size_t)1 << 29, ((size_t)1 << 29) + 1, ((size_t)1 << 31) + 7, ((size_t)1 << 32) + 3};
 #define NSTRIDE ((int)(sizeof strides / sizeof strides[0]))
 #define NROUT 7
 static char const *const RN[NROUT] = {"sum", "sum1", "sum2", "mean", "norm", "dot", "dot-with-itself"};
-static uint64_t vf_ncases(int tier) { return (uint64_t)NSTRIDE + (tier ? NROUT : 2); }
+static uint64_t vf_ncases(int tier) { return (uint64_t)NSTRIDE + 1 + (tier ? NROUT : 2); }
 
 static a_real *map_reals(size_t n)
 {
@@ -148,11 +149,57 @@ static void count_case(int rt, vf_rng *r)
     if (q) { munmap(q, n * sizeof(a_real)); }
 }
 
+/* DENSE data at counts that no allocation can hold: one 4 MiB file (memfd) mapped read-only 512 times back to back gives a 2 GiB window of 2^28 reals that costs 4 MiB of memory.
+   "Norms do not overflow ... when the true result is representable": with n components of magnitude w the plain sum of squares is n w^2, which leaves the range for
+   w > sqrt(MAX / n) although the norm sqrt(n) w is far inside it - a bound on the COMPONENTS says nothing once the count is large (seeded change C11-N: plain squares when the largest
+   magnitude is below 1e150; wrong only for more than 1.8e8 components). Components are +-w and +-w/2 in a fixed pattern, so the scaled squares are 1 and 1/4 and every partial sum
+   is exact: the expected norm is w * sqrt(count(w) + count(w/2) / 4), judged to 8 eps. */
+#include <sys/syscall.h>
+static void dense_norm_case(vf_rng *r)
+{
+    size_t const chunk = (size_t)4 << 20, reps = 512, nper = chunk / sizeof(a_real), n = nper * reps;
+    int const fd = (int)syscall(SYS_memfd_create, "vf-dense", 0);
+    double const u = vf_uniform(r, 1.5, 8), w = sqrt((double)A_REAL_MAX / (double)n) * u;
+    unsigned char *win;
+    a_real *f, got, got2;
+    double cw = 0, ch = 0, cw2 = 0, ch2 = 0, want, want2;
+    if (fd < 0 || ftruncate(fd, (off_t)chunk) != 0) { VF_COUNT("giant-mapping-refused"); if (fd >= 0) { close(fd); } return; }
+    f = (a_real *)mmap(NULL, chunk, PROT_READ | PROT_WRITE, MAP_SHARED, fd, 0);
+    win = (unsigned char *)mmap(NULL, chunk * reps, PROT_NONE, MAP_PRIVATE | MAP_ANONYMOUS | MAP_NORESERVE, -1, 0);
+    if (f == MAP_FAILED || win == MAP_FAILED) { VF_COUNT("giant-mapping-refused"); close(fd); return; }
+    for (size_t i = 0; i < nper; ++i)
+    {
+        int const half = (i % 5) == 2, neg = (i % 3) == 1;
+        f[i] = (a_real)((half ? w / 2 : w) * (neg ? -1 : 1));
+        if (half) { ch += 1; } else { cw += 1; }
+        if (i % 2 == 0) { if (half) { ch2 += 1; } else { cw2 += 1; } }
+    }
+    for (size_t k = 0; k < reps; ++k)
+    {
+        if (mmap(win + k * chunk, chunk, PROT_READ, MAP_SHARED | MAP_FIXED, fd, 0) == MAP_FAILED) { VF_COUNT("giant-mapping-refused"); munmap(win, chunk * reps); munmap(f, chunk); close(fd); return; }
+    }
+    want = w * sqrt((cw + ch / 4) * (double)reps);
+    want2 = w * sqrt((cw2 + ch2 / 4) * (double)reps);
+    vf_log("a_real_norm over n = 2^28 dense components of magnitude w and w/2, w = %a = %.3g * sqrt(MAX/n): n w^2 is not representable, the norm %a is", w, u, want);
+    got = a_real_norm(n, (a_real const *)win);
+    got2 = a_real_norm_(n / 2, (a_real const *)win, 2);
+    ++vf.evals;
+    vf_count_dyn("dense-norm-2^28-components-squares-sum-overflows", 1);
+    if (!close_to(got, want)) { vf_viol("real/norm/dense-count-2^28", "a_real_norm(n = 2^28, components +-%a and +-%a) = %.17g, the norm is %.17g (representable; the plain sum of squares is not)", w, w / 2, (double)got, want); }
+    if (!close_to(got2, want2)) { vf_viol("real/norm_/dense-count-2^27", "a_real_norm_(n = 2^27, stride 2, components +-%a and +-%a) = %.17g, the norm is %.17g", w, w / 2, (double)got2, want2); }
+    vf_distinct(vf_hash64(0x1113, 0));
+    munmap(win, chunk * reps);
+    munmap(f, chunk);
+    close(fd);
+}
+
 static void vf_case(uint64_t c, vf_rng *r)
 {
     if (sizeof(a_real) != 8) { VF_COUNT("giant-configuration-is-for-the-double-build"); return; }
     if (c < (uint64_t)NSTRIDE) { strided_case((int)c, r); return; }
     c -= NSTRIDE;
+    if (c == 0) { dense_norm_case(r); return; }
+    c -= 1;
     if (!vf.tier) { c = (c * 3 + vf.seed) % NROUT; } /* quick: two routines chosen by the seed */
     count_case((int)c, r);
 }
